@@ -2,7 +2,7 @@
 """Copy confirmed seeded defects from /tmp/mut-out into /verif/seeded/<id>/ (patch.diff, demo/, meta.json)."""
 import os, json, shutil, glob
 ROOT = os.path.dirname(os.path.dirname(os.path.abspath(__file__)))
-for d in sorted(glob.glob("/tmp/mut-out/C??-[a-d]")):
+for d in sorted(glob.glob("/tmp/mut-out/C??-[a-h]")):
     cf = os.path.join(d, "confirm.json")
     if not os.path.exists(cf):
         continue
